@@ -1,0 +1,577 @@
+//go:build verif
+
+package scheduler
+
+// Read-only dump hook for the /verif "sched" model-checking harness
+// (properties C01-C03, C06, C07). It walks the internal state of an
+// InMemoryBuildQueue and returns plain data. It never mutates anything
+// and deliberately does NOT take bq.lock: the harness calls it at
+// quiescent points of the controlled scheduler (every goroutine is
+// parked or durably blocked) or from the thread that currently runs.
+// All invariants live in the harness, not here.
+
+import (
+	"sort"
+	"strconv"
+	"strings"
+	"time"
+
+	remoteexecution "github.com/bazelbuild/remote-apis/build/bazel/remote/execution/v2"
+	"github.com/buildbarn/bb-remote-execution/pkg/scheduler/initialsizeclass"
+	scheduler_invocation "github.com/buildbarn/bb-remote-execution/pkg/scheduler/invocation"
+)
+
+// VerifHeapEntry is one slot of one of the heaps / lists that carry
+// back-pointer indices.
+type VerifHeapEntry struct {
+	// Name of the element: operation name, last invocation key of a
+	// child invocation, or worker reference.
+	Name string
+	// The index that is stored in the element itself.
+	StoredIndex int
+	// Whether the element's owner pointer refers back to the
+	// container it was found in (operation.invocation == i,
+	// child.parent == i && i.children[key] == child,
+	// worker.lastInvocation == i && entry.listIndex == &worker.listIndex).
+	OwnerOK bool
+}
+
+// VerifWorkerCount is one entry of invocation.executingWorkers.
+type VerifWorkerCount struct {
+	Worker string
+	Count  int
+}
+
+// VerifInvocation is one node of an invocation tree.
+type VerifInvocation struct {
+	SizeClassQueue   string
+	Path             []string // invocation keys from the root (empty for the root)
+	StoredPathOK     bool     // i.invocationKeys equals Path
+	ParentOK         bool     // i.parent points to the node it hangs under
+	SizeClassQueueOK bool
+
+	QueuedOperations                 []VerifHeapEntry   // heap order
+	Children                         []*VerifInvocation // sorted by key
+	QueuedChildren                   []VerifHeapEntry   // heap order
+	IdleSynchronizingWorkersChildren []VerifHeapEntry   // heap order
+	IdleSynchronizingWorkers         []VerifHeapEntry   // list order
+
+	QueuedChildrenIndex                   int
+	IdleSynchronizingWorkersChildrenIndex int
+	FirstQueuedOperationPriority          int32
+	ExecutingWorkers                      []VerifWorkerCount // sorted by worker
+	LastOperationStarted                  int64
+	LastOperationCompletion               int64
+	IdleWorkersCount                      uint32
+}
+
+// VerifWorker is one entry of a size class queue's worker table.
+type VerifWorker struct {
+	Ref               string // "<size class queue>#<worker key>"
+	Key               string
+	CurrentTask       int // index into VerifSnap.Tasks, -1 if none
+	Terminating       bool
+	HasLastInvocation bool
+	LastInvocation    string // reference of the invocation ("<detached>" if not in any tree)
+	HasWakeup         bool
+	ListIndex         int
+	CleanupActive     bool
+	CleanupTime       int64
+	Drained           bool
+}
+
+// VerifSizeClassQueue is one size class queue.
+type VerifSizeClassQueue struct {
+	Name          string
+	SizeClass     uint32
+	MayBeRemoved  bool
+	InMap         bool // bq.sizeClassQueues[key] == scq
+	CleanupActive bool
+	CleanupTime   int64
+	Drains        []string
+	Workers       []VerifWorker // sorted by key
+	Root          *VerifInvocation
+}
+
+// VerifPlatformQueue is one platform queue, in bq.platformQueues order.
+type VerifPlatformQueue struct {
+	Name                                      string
+	TrieIndex                                 int // bq.platformQueuesTrie.GetExact(key)
+	SizeClasses                               []uint32
+	MaximumQueuedBackgroundLearningOperations int
+	SizeClassQueues                           []*VerifSizeClassQueue
+}
+
+// VerifTaskOperation is one entry of task.operations.
+type VerifTaskOperation struct {
+	Invocation   string // reference of the map key
+	Operation    string // name of the operation
+	InvocationOK bool   // operation.invocation == map key
+	TaskOK       bool   // operation.task == task
+}
+
+// VerifTask is one task object reachable from anywhere.
+type VerifTask struct {
+	// Opaque identity token (stable for the lifetime of the task
+	// object); never dereferenced by the harness.
+	Ref                     any
+	Operations              []VerifTaskOperation // sorted by operation name
+	ActionDigest            string
+	Stage                   string // QUEUED, EXECUTING, COMPLETED as computed by getStage()
+	ExecuteResponse         *remoteexecution.ExecuteResponse
+	CurrentWorker           string // worker reference, "" if none, "<detached>" if not in any table
+	CurrentWorkerPointsBack bool
+	RetryCount              int
+	Learner                 initialsizeclass.Learner
+	HasStageChangeWakeup    bool
+	HasAction               bool
+	DoNotCache              bool
+	ActionTimeout           time.Duration
+	ExpectedDuration        time.Duration
+	QueuedTimestamp         int64
+	InDeduplicationMap      bool
+}
+
+// VerifOperation is one operation object reachable from anywhere.
+type VerifOperation struct {
+	Name                   string
+	InNameMap              bool
+	Task                   int // index into VerifSnap.Tasks
+	Priority               int32
+	Invocation             string
+	QueueIndex             int
+	Waiters                uint
+	MayExistWithoutWaiters bool
+	CleanupActive          bool
+	CleanupTime            int64
+}
+
+// VerifDeduplication is one entry of inFlightDeduplicationMap.
+type VerifDeduplication struct {
+	Digest string
+	Task   int
+}
+
+// VerifCleanup is one slot of the cleanup heap.
+type VerifCleanup struct {
+	Timestamp int64
+	KeyOK     bool // *entry.key == index+1
+}
+
+// VerifSnap is the complete dump.
+type VerifSnap struct {
+	Now            int64
+	PlatformQueues []*VerifPlatformQueue
+	// Size class queues that are in bq.sizeClassQueues but not
+	// reachable through bq.platformQueues.
+	OrphanSizeClassQueues []string
+	Tasks                 []VerifTask          // sorted by lowest operation name, then digest
+	Operations            []VerifOperation     // sorted by name
+	Deduplication         []VerifDeduplication // sorted by digest
+	Cleanup               []VerifCleanup       // heap order
+	Counts                map[string]int
+}
+
+func verifNS(t time.Time) int64 {
+	if t.IsZero() {
+		return 0
+	}
+	return t.UnixNano()
+}
+
+type verifWalker struct {
+	bq          *InMemoryBuildQueue
+	workerRefs  map[*worker]string
+	invRefs     map[*invocation]string
+	taskList    []*task
+	taskSeen    map[*task]struct{}
+	opList      []*operation
+	opSeen      map[*operation]struct{}
+	invocations int
+}
+
+func (vw *verifWalker) addTask(t *task) {
+	if t == nil {
+		return
+	}
+	if _, ok := vw.taskSeen[t]; ok {
+		return
+	}
+	vw.taskSeen[t] = struct{}{}
+	vw.taskList = append(vw.taskList, t)
+	for _, o := range t.operations {
+		vw.addOperation(o)
+	}
+	if w := t.currentWorker; w != nil {
+		vw.addTask(w.currentTask)
+	}
+}
+
+func (vw *verifWalker) addOperation(o *operation) {
+	if o == nil {
+		return
+	}
+	if _, ok := vw.opSeen[o]; ok {
+		return
+	}
+	vw.opSeen[o] = struct{}{}
+	vw.opList = append(vw.opList, o)
+	vw.addTask(o.task)
+}
+
+func verifSCQName(scq *sizeClassQueue) string {
+	k := scq.platformQueue.platformKey
+	return k.GetInstanceNamePrefix().String() + "|" + k.GetPlatformString() + "|" + strconv.FormatUint(uint64(scq.sizeClass), 10)
+}
+
+func (vw *verifWalker) registerInvocations(scqName string, i *invocation, path []string) {
+	vw.invRefs[i] = scqName + "/" + strings.Join(path, "/")
+	vw.invocations++
+	for key, c := range i.children {
+		vw.registerInvocations(scqName, c, append(append([]string(nil), path...), string(key)))
+	}
+}
+
+func (vw *verifWalker) invRef(i *invocation) string {
+	if i == nil {
+		return "<nil>"
+	}
+	if r, ok := vw.invRefs[i]; ok {
+		return r
+	}
+	return "<detached>"
+}
+
+func (vw *verifWalker) workerRef(w *worker) string {
+	if w == nil {
+		return ""
+	}
+	if r, ok := vw.workerRefs[w]; ok {
+		return r
+	}
+	return "<detached>"
+}
+
+func (vw *verifWalker) dumpInvocation(scq *sizeClassQueue, scqName string, i, parent *invocation, path []string) *VerifInvocation {
+	v := &VerifInvocation{
+		SizeClassQueue:                        scqName,
+		Path:                                  path,
+		ParentOK:                              i.parent == parent,
+		SizeClassQueueOK:                      i.sizeClassQueue == scq,
+		QueuedChildrenIndex:                   i.queuedChildrenIndex,
+		IdleSynchronizingWorkersChildrenIndex: i.idleSynchronizingWorkersChildrenIndex,
+		FirstQueuedOperationPriority:          i.firstQueuedOperationPriority,
+		LastOperationStarted:                  verifNS(i.lastOperationStarted),
+		LastOperationCompletion:               verifNS(i.lastOperationCompletion),
+		IdleWorkersCount:                      i.idleWorkersCount,
+	}
+	v.StoredPathOK = len(i.invocationKeys) == len(path)
+	if v.StoredPathOK {
+		for idx, k := range i.invocationKeys {
+			if string(k) != path[idx] {
+				v.StoredPathOK = false
+			}
+		}
+	}
+	for _, o := range i.queuedOperations {
+		if o == nil {
+			v.QueuedOperations = append(v.QueuedOperations, VerifHeapEntry{Name: "<nil>"})
+			continue
+		}
+		vw.addOperation(o)
+		v.QueuedOperations = append(v.QueuedOperations, VerifHeapEntry{Name: o.name, StoredIndex: o.queueIndex, OwnerOK: o.invocation == i})
+	}
+	lastKey := func(c *invocation) string {
+		if c == nil {
+			return "<nil>"
+		}
+		if n := len(c.invocationKeys); n > 0 {
+			return string(c.invocationKeys[n-1])
+		}
+		return "<root>"
+	}
+	isChild := func(c *invocation) bool {
+		if c == nil || c.parent != i {
+			return false
+		}
+		n := len(c.invocationKeys)
+		return n > 0 && i.children[c.invocationKeys[n-1]] == c
+	}
+	for _, c := range i.queuedChildren {
+		e := VerifHeapEntry{Name: lastKey(c), OwnerOK: isChild(c)}
+		if c != nil {
+			e.StoredIndex = c.queuedChildrenIndex
+		}
+		v.QueuedChildren = append(v.QueuedChildren, e)
+	}
+	for _, c := range i.idleSynchronizingWorkersChildren {
+		e := VerifHeapEntry{Name: lastKey(c), OwnerOK: isChild(c)}
+		if c != nil {
+			e.StoredIndex = c.idleSynchronizingWorkersChildrenIndex
+		}
+		v.IdleSynchronizingWorkersChildren = append(v.IdleSynchronizingWorkersChildren, e)
+	}
+	for _, entry := range i.idleSynchronizingWorkers {
+		w := entry.worker
+		e := VerifHeapEntry{Name: vw.workerRef(w)}
+		if w != nil {
+			e.StoredIndex = w.listIndex
+			e.OwnerOK = w.lastInvocation == i && entry.listIndex == &w.listIndex
+		}
+		v.IdleSynchronizingWorkers = append(v.IdleSynchronizingWorkers, e)
+	}
+	for w, n := range i.executingWorkers {
+		v.ExecutingWorkers = append(v.ExecutingWorkers, VerifWorkerCount{Worker: vw.workerRef(w), Count: n})
+		if w != nil {
+			vw.addTask(w.currentTask)
+		}
+	}
+	sort.Slice(v.ExecutingWorkers, func(a, b int) bool { return v.ExecutingWorkers[a].Worker < v.ExecutingWorkers[b].Worker })
+	keys := make([]string, 0, len(i.children))
+	for key := range i.children {
+		keys = append(keys, string(key))
+	}
+	sort.Strings(keys)
+	for _, key := range keys {
+		c := i.children[scheduler_invocation.Key(key)]
+		v.Children = append(v.Children, vw.dumpInvocation(scq, scqName, c, i, append(append([]string(nil), path...), key)))
+	}
+	return v
+}
+
+// VerifSnapshot returns a plain-data dump of the complete state of the
+// build queue.
+func VerifSnapshot(bq *InMemoryBuildQueue) *VerifSnap {
+	vw := &verifWalker{
+		bq:         bq,
+		workerRefs: map[*worker]string{},
+		invRefs:    map[*invocation]string{},
+		taskSeen:   map[*task]struct{}{},
+		opSeen:     map[*operation]struct{}{},
+	}
+	s := &VerifSnap{Now: verifNS(bq.now), Counts: map[string]int{}}
+
+	// Pass 1: references of size class queues, workers and invocations.
+	reachable := map[*sizeClassQueue]struct{}{}
+	var scqs []*sizeClassQueue
+	for _, pq := range bq.platformQueues {
+		for _, scq := range pq.sizeClassQueues {
+			if _, ok := reachable[scq]; !ok {
+				reachable[scq] = struct{}{}
+				scqs = append(scqs, scq)
+			}
+		}
+	}
+	for _, scq := range bq.sizeClassQueues {
+		if _, ok := reachable[scq]; !ok {
+			s.OrphanSizeClassQueues = append(s.OrphanSizeClassQueues, verifSCQName(scq))
+		}
+	}
+	sort.Strings(s.OrphanSizeClassQueues)
+	for _, scq := range scqs {
+		name := verifSCQName(scq)
+		for key, w := range scq.workers {
+			vw.workerRefs[w] = name + "#" + string(key)
+		}
+		vw.registerInvocations(name, &scq.rootInvocation, nil)
+	}
+
+	// Pass 2: tasks and operations reachable from the maps.
+	for _, o := range bq.operationsNameMap {
+		vw.addOperation(o)
+	}
+	for _, t := range bq.inFlightDeduplicationMap {
+		vw.addTask(t)
+	}
+	for _, scq := range scqs {
+		for _, w := range scq.workers {
+			vw.addTask(w.currentTask)
+		}
+	}
+
+	// Pass 3: platform queues, size class queues, invocation trees.
+	workers := 0
+	dynamicQueues := 0
+	for _, pq := range bq.platformQueues {
+		vpq := &VerifPlatformQueue{
+			Name:        pq.platformKey.GetInstanceNamePrefix().String() + "|" + pq.platformKey.GetPlatformString(),
+			TrieIndex:   bq.platformQueuesTrie.GetExact(pq.platformKey),
+			SizeClasses: append([]uint32(nil), pq.sizeClasses...),
+			MaximumQueuedBackgroundLearningOperations: pq.maximumQueuedBackgroundLearningOperations,
+		}
+		for _, scq := range pq.sizeClassQueues {
+			name := verifSCQName(scq)
+			vscq := &VerifSizeClassQueue{
+				Name:          name,
+				SizeClass:     scq.sizeClass,
+				MayBeRemoved:  scq.mayBeRemoved,
+				InMap:         bq.sizeClassQueues[scq.getKey()] == scq,
+				CleanupActive: scq.cleanupKey.isActive(),
+			}
+			if scq.mayBeRemoved {
+				dynamicQueues++
+			}
+			if k := int(scq.cleanupKey); k > 0 && k <= len(bq.cleanupQueue.heap) {
+				vscq.CleanupTime = verifNS(bq.cleanupQueue.heap[k-1].timestamp)
+			}
+			for d := range scq.drains {
+				vscq.Drains = append(vscq.Drains, d)
+			}
+			sort.Strings(vscq.Drains)
+			keys := make([]string, 0, len(scq.workers))
+			for key := range scq.workers {
+				keys = append(keys, string(key))
+			}
+			sort.Strings(keys)
+			for _, key := range keys {
+				w := scq.workers[workerKey(key)]
+				workers++
+				vwk := VerifWorker{
+					Ref:               name + "#" + key,
+					Key:               key,
+					CurrentTask:       -1,
+					Terminating:       w.terminating,
+					HasLastInvocation: w.lastInvocation != nil,
+					HasWakeup:         w.wakeup != nil,
+					ListIndex:         w.listIndex,
+					CleanupActive:     w.cleanupKey.isActive(),
+				}
+				if w.terminating {
+					vwk.Drained = true
+				} else if len(scq.drains) > 0 {
+					vwk.Drained = w.isDrained(scq, workerKey(key).getWorkerID())
+				}
+				if w.lastInvocation != nil {
+					vwk.LastInvocation = vw.invRef(w.lastInvocation)
+				}
+				if k := int(w.cleanupKey); k > 0 && k <= len(bq.cleanupQueue.heap) {
+					vwk.CleanupTime = verifNS(bq.cleanupQueue.heap[k-1].timestamp)
+				}
+				vscq.Workers = append(vscq.Workers, vwk)
+			}
+			vscq.Root = vw.dumpInvocation(scq, name, &scq.rootInvocation, nil, nil)
+			vpq.SizeClassQueues = append(vpq.SizeClassQueues, vscq)
+		}
+		s.PlatformQueues = append(s.PlatformQueues, vpq)
+	}
+
+	// Pass 4: tasks, sorted canonically.
+	minName := func(t *task) string {
+		m := "~"
+		for _, o := range t.operations {
+			if o != nil && o.name < m {
+				m = o.name
+			}
+		}
+		return m
+	}
+	sort.SliceStable(vw.taskList, func(a, b int) bool {
+		ta, tb := vw.taskList[a], vw.taskList[b]
+		if ma, mb := minName(ta), minName(tb); ma != mb {
+			return ma < mb
+		}
+		return ta.actionDigest.String() < tb.actionDigest.String()
+	})
+	taskIndex := map[*task]int{}
+	for idx, t := range vw.taskList {
+		taskIndex[t] = idx
+	}
+	for _, t := range vw.taskList {
+		vt := VerifTask{
+			Ref:                  t,
+			ActionDigest:         t.actionDigest.String(),
+			Stage:                t.getStage().String(),
+			ExecuteResponse:      t.executeResponse,
+			CurrentWorker:        vw.workerRef(t.currentWorker),
+			RetryCount:           t.retryCount,
+			Learner:              t.initialSizeClassLearner,
+			HasStageChangeWakeup: t.stageChangeWakeup != nil,
+			ExpectedDuration:     t.expectedDuration,
+			QueuedTimestamp:      verifNS(t.desiredState.QueuedTimestamp.AsTime()),
+		}
+		if t.currentWorker != nil {
+			vt.CurrentWorkerPointsBack = t.currentWorker.currentTask == t
+		}
+		if a := t.desiredState.Action; a != nil {
+			vt.HasAction = true
+			vt.DoNotCache = a.DoNotCache
+			vt.ActionTimeout = a.Timeout.AsDuration()
+		}
+		if d, ok := bq.inFlightDeduplicationMap[t.actionDigest]; ok && d == t {
+			vt.InDeduplicationMap = true
+		}
+		for i, o := range t.operations {
+			vto := VerifTaskOperation{Invocation: vw.invRef(i), Operation: "<nil>"}
+			if o != nil {
+				vto.Operation = o.name
+				vto.InvocationOK = o.invocation == i
+				vto.TaskOK = o.task == t
+			}
+			vt.Operations = append(vt.Operations, vto)
+		}
+		sort.Slice(vt.Operations, func(a, b int) bool {
+			if vt.Operations[a].Operation != vt.Operations[b].Operation {
+				return vt.Operations[a].Operation < vt.Operations[b].Operation
+			}
+			return vt.Operations[a].Invocation < vt.Operations[b].Invocation
+		})
+		s.Tasks = append(s.Tasks, vt)
+	}
+	// Fill in the current task of every worker.
+	workerByRef := make(map[string]*worker, len(vw.workerRefs))
+	for w, ref := range vw.workerRefs {
+		workerByRef[ref] = w
+	}
+	for _, vpq := range s.PlatformQueues {
+		for _, vscq := range vpq.SizeClassQueues {
+			for idx := range vscq.Workers {
+				if w := workerByRef[vscq.Workers[idx].Ref]; w != nil && w.currentTask != nil {
+					vscq.Workers[idx].CurrentTask = taskIndex[w.currentTask]
+				}
+			}
+		}
+	}
+
+	// Pass 5: operations.
+	sort.SliceStable(vw.opList, func(a, b int) bool { return vw.opList[a].name < vw.opList[b].name })
+	for _, o := range vw.opList {
+		vo := VerifOperation{
+			Name:                   o.name,
+			InNameMap:              bq.operationsNameMap[o.name] == o,
+			Task:                   -1,
+			Priority:               o.priority,
+			Invocation:             vw.invRef(o.invocation),
+			QueueIndex:             o.queueIndex,
+			Waiters:                o.waiters,
+			MayExistWithoutWaiters: o.mayExistWithoutWaiters,
+			CleanupActive:          o.cleanupKey.isActive(),
+		}
+		if o.task != nil {
+			vo.Task = taskIndex[o.task]
+		}
+		if k := int(o.cleanupKey); k > 0 && k <= len(bq.cleanupQueue.heap) {
+			vo.CleanupTime = verifNS(bq.cleanupQueue.heap[k-1].timestamp)
+		}
+		s.Operations = append(s.Operations, vo)
+	}
+
+	// Pass 6: deduplication map and cleanup heap.
+	for d, t := range bq.inFlightDeduplicationMap {
+		s.Deduplication = append(s.Deduplication, VerifDeduplication{Digest: d.String(), Task: taskIndex[t]})
+	}
+	sort.Slice(s.Deduplication, func(a, b int) bool { return s.Deduplication[a].Digest < s.Deduplication[b].Digest })
+	for idx, e := range bq.cleanupQueue.heap {
+		s.Cleanup = append(s.Cleanup, VerifCleanup{Timestamp: verifNS(e.timestamp), KeyOK: e.key != nil && *e.key == cleanupKey(idx+1)})
+	}
+
+	s.Counts["operations"] = len(bq.operationsNameMap)
+	s.Counts["deduplication"] = len(bq.inFlightDeduplicationMap)
+	s.Counts["tasks"] = len(vw.taskList)
+	s.Counts["invocations_non_root"] = vw.invocations - len(scqs)
+	s.Counts["workers"] = workers
+	s.Counts["platform_queues"] = len(bq.platformQueues)
+	s.Counts["size_class_queues"] = len(bq.sizeClassQueues)
+	s.Counts["dynamic_size_class_queues"] = dynamicQueues
+	s.Counts["cleanups"] = len(bq.cleanupQueue.heap)
+	return s
+}
